@@ -384,9 +384,23 @@ class Run:
         self.violations.append({"what": what, "replay": path})
         self.log("VIOLATION candidate: %s -> %s" % (what, path))
 
+    def note(self, what, detail=None):
+        """A departure from a contract in behaviour the property's statement does not cover (the specifications are grown
+        beyond the listed properties): recorded in the evidence and printed, never a verdict."""
+        if not hasattr(self, "notes"):
+            self.notes = []
+        path = os.path.join(self.outdir, "note-%s-%d-%d.json" % (self.tier, self.seed, len(self.notes) + 1))
+        json.dump(dict(detail or {}, what=what, property=self.pid), open(path, "w"), indent=1, default=str)
+        self.notes.append({"what": what, "file": path})
+        self.log("NOTE (beyond the statement of %s, not a verdict): %s -> %s" % (self.pid, what, path))
+
     def finish(self, rule=None):
         if rule:
             self.cov["rule"] = rule
+        if getattr(self, "notes", None):
+            self.cov["beyond_statement_notes"] = [n["what"][:400] for n in self.notes[:20]]
+            for n in self.notes[:20]:
+                print("NOTE property=%s beyond-the-statement (not a verdict): %s" % (self.pid, n["what"][:600]))
         for k, text in sorted(self.known_hits.items()):
             print("KNOWN-FINDING: property=%s %s (%s)" % (self.pid, text, k))
         ev = {"property_id": self.pid, "tier": self.tier, "seed": self.seed, "level": self.level,
